@@ -198,6 +198,63 @@ pub fn child(out: &mut dyn std::io::Write, group: &str, seed: u64, thorough: boo
                 }
             }
         }
+        "ctor" => {
+            // constructor arguments are byte slices too: key and nonce each live in their own guarded region, first byte on
+            // the first mapped byte / last byte on the last mapped byte / interior at every alignment class
+            let mut g2 = Guarded::new();
+            let mut all: Vec<(String, usize, usize)> = chacha::VARIANTS.iter().map(|v| (format!("ks:{}", v), 32usize, chacha::nonce_len(v))).collect();
+            all.push(("guts:8".to_string(), 32, 8));
+            all.push(("guts:12".to_string(), 32, 12));
+            for s in [32usize, 64, 128] {
+                all.push((format!("tf:{}", s), s, 0));
+            }
+            for (what, klen, nlen) in all {
+                let key = rng.bytes(klen);
+                let nonce = rng.bytes(nlen);
+                let x = rng.bytes(klen.max(64));
+                let run = |k: &[u8], n: &[u8], ctor: usize| -> Vec<u8> {
+                    if let Some(v) = what.strip_prefix("ks:") {
+                        let mut d = vec![0u8; 200];
+                        chacha::make_ctor(v, k, n, ctor).apply(&mut d).unwrap();
+                        d
+                    } else if what.starts_with("guts:") {
+                        let mut o = [0u8; 64];
+                        chacha::guts_new(k, n).refill(10, &mut o);
+                        o.to_vec()
+                    } else {
+                        tf::tf_call(klen, k, 3, 4, ctor % 2 == 0, &x[..klen], false)
+                    }
+                };
+                let reference0 = run(&key, &nonce, 0);
+                let reference1 = run(&key, &nonce, 1);
+                let mut pl: Vec<(&str, usize)> = vec![("start", 0), ("end", 0)];
+                for a in if thorough { (0..32).collect::<Vec<usize>>() } else { vec![1, 4, 8, 12, 17] } {
+                    pl.push(("mid", a));
+                }
+                for (ci, (place, align)) in pl.iter().enumerate() {
+                    g.refill();
+                    g2.refill();
+                    r.call("new", &what, place, klen + nlen, *align);
+                    let (koff, ks) = g.place(place, klen, *align);
+                    ks.copy_from_slice(&key);
+                    // key and nonce at opposite ends, so that both "before the start" and "past the end" are unmapped for each
+                    let nplace = match *place { "start" => "end", "end" => "start", p => p };
+                    let (noff, ns) = g2.place(nplace, nlen, *align);
+                    ns.copy_from_slice(&nonce);
+                    let (res, same) = {
+                        let (ksl, nsl): (&[u8], &[u8]) = (ks, ns);
+                        let res = guarded(|| run(ksl, nsl, ci));
+                        (res, ksl == &key[..] && nsl == &nonce[..])
+                    };
+                    let can = g.canary_ok(koff, klen) && g2.canary_ok(noff, nlen) && same;
+                    let reference = if ci % 2 == 0 { &reference0 } else { &reference1 };
+                    match res {
+                        Ok(o) => r.ret(&o, reference, can, "ok"),
+                        Err(_) => r.ret(&[], reference, can, "panic"),
+                    }
+                }
+            }
+        }
         "selftest" => {
             // demonstration that the guard pages bite: a deliberate one-byte over-read at the end of mapped memory
             r.call("overread", "selftest", "end", 16, 0);
@@ -241,6 +298,7 @@ pub fn groups() -> Vec<String> {
         v.push(format!("tf:{}", s));
     }
     v.push("guts".to_string());
+    v.push("ctor".to_string());
     v.push("vec".to_string());
     v
 }
